@@ -3,15 +3,15 @@
  * (the scratch copy with loop contracts spliced is first on the include path). */
 #include "prelude.h"
 #ifdef XF_TLS
-#include "xcm_tp_tls.c"
 #define XF_STRUCT tls_socket
 #define XF_PREFIX tls
 #define XF_LOWER(s) (XF(s)->btls_socket)
+#include "xcm_tp_tls.c"
 #else
-#include "xcm_tp_tcp.c"
 #define XF_STRUCT tcp_socket
 #define XF_PREFIX tcp
 #define XF_LOWER(s) (XF(s)->btcp_socket)
+#include "xcm_tp_tcp.c"
 #endif
 #include "env/base.h"
 #include "contracts/framing.h"
